@@ -20,6 +20,15 @@ def plan(tier):
     return 1500 if tier == "quick" else 30000
 
 
+# second workload: the images the repository's own tests master (harness/suite.py), decoded by the
+# independent reader without a model
+SUITE_TIERS = ('quick', 'thorough')
+
+
+def suite_oracle(data):
+    return check_image(data)[0]
+
+
 def key_of(k):
     """Map decoder problem keys to the C03 taxonomy (prefix per volume kept)."""
     return k
@@ -165,6 +174,9 @@ def check(cfg, ops, seed, counters=None):
 
 
 def run_case(i, seed, tier):
+    if i >= plan(tier):
+        from harness import suite
+        return suite.run_slot(PROPERTY, i - plan(tier), suite_oracle)
     counters = {}
     g = Gen(seed * 1000003 + i)
     cfg = g.cfg(index=i + seed * 17)
@@ -216,6 +228,9 @@ def run_case(i, seed, tier):
 
 
 def replay(doc):
+    if doc.get('suite_image'):
+        from harness import suite
+        return suite.replay(doc, suite_oracle)
     cfg, ops, seed = common.doc_cfg_ops(doc)
     vio, _ = check(cfg, ops, seed)
     return vio
